@@ -1830,16 +1830,20 @@ def _radd(lhs,rhs):
         assert False, 'unexpected'
 
 #----------------------------------------------------------------------------
-def set_correlation_real(x1,x2,r):
+def set_correlation_real(x1,x2,r,assign=True):
     """
     Assign a correlation coefficient between ``x1`` and ``x2``
     
     Illegitimate values of ``r`` will raise a ``ValueError`` 
 
+    When ``assign`` is ``False`` the arguments are checked  
+    in the same way, but nothing is assigned.
+
     Parameters
     ----------
     x1, x2 : UncertainReal
     r: float
+    assign: bool
     
     """
     if (
@@ -1864,7 +1868,7 @@ def set_correlation_real(x1,x2,r):
                     raise ValueError(
                         "correlation coefficient '|{}|' > 1.0".format(r)
                     )
-                else:
+                elif assign:
                     ln1.correlation[ln2.uid] = r 
                     ln2.correlation[ln1.uid] = r 
         else:
@@ -2760,6 +2764,13 @@ class UncertainComplex(object):
             else:
                 # Trivial case
                 if all( r_i == 0.0 for r_i in r ): return 
+                
+                # Check all four pairs before any coefficient is assigned, 
+                # so that a rejected call leaves nothing behind
+                set_correlation_real(self.real,arg.real,r[0],assign=False)
+                set_correlation_real(self.real,arg.imag,r[1],assign=False)
+                set_correlation_real(self.imag,arg.real,r[2],assign=False)
+                set_correlation_real(self.imag,arg.imag,r[3],assign=False)
                 
                 if (
                     math.isinf( self.real._node.df ) and
